@@ -15,7 +15,7 @@ for pid in props:
             'evidence_file': f'evidence/{pid}.json',
             'replay_cmd_template': f'./check {pid} --replay {{path}}',
             'engine': 'lean4-model+correspondence',
-            'level_claimed': {'category': 'proof', 'text': c['text'], 'design_ref': c.get('design_ref', 'DESIGN.md section 7')},
+            'level_claimed': {'category': 'proof', 'text': c['text'], 'design_ref': c.get('design_ref', 'DESIGN.md section 11 (what is proved, per property), section 0 (machinery), section 9 (trusted base); section 7 is the original plan')},
             'level_note': c['note'],
             'technique': c['technique'],
         })
